@@ -242,6 +242,9 @@ package postgres
 //@ requires tx != nil
 //@ loop 1 invariant sqlis(promiseInsertStmt, "PROMISE_INSERT_STATEMENT") && sqlis(promiseUpdateStmt, "PROMISE_UPDATE_STATEMENT") && sqlis(callbackInsertStmt, "CALLBACK_INSERT_STATEMENT") && sqlis(callbackDeleteStmt, "CALLBACK_DELETE_STATEMENT") && sqlis(scheduleInsertStmt, "SCHEDULE_INSERT_STATEMENT") && sqlis(scheduleUpdateStmt, "SCHEDULE_UPDATE_STATEMENT") && sqlis(scheduleDeleteStmt, "SCHEDULE_DELETE_STATEMENT") && sqlis(lockAcquireStmt, "LOCK_ACQUIRE_STATEMENT") && sqlis(lockReleaseStmt, "LOCK_RELEASE_STATEMENT") && sqlis(lockHeartbeatStmt, "LOCK_HEARTBEAT_STATEMENT") && sqlis(lockTimeoutStmt, "LOCK_TIMEOUT_STATEMENT") && sqlis(taskInsertStmt, "TASK_INSERT_STATEMENT") && sqlis(tasksInsertStmt, "TASK_INSERT_ALL_STATEMENT") && sqlis(tasksCompleteStmt, "TASK_COMPLETE_BY_ROOT_ID_STATEMENT") && sqlis(taskUpdateStmt, "TASK_UPDATE_STATEMENT") && sqlis(taskHeartbeatStmt, "TASK_HEARTBEAT_STATEMENT")
 //@ loop 2 invariant sqlis(promiseInsertStmt, "PROMISE_INSERT_STATEMENT") && sqlis(promiseUpdateStmt, "PROMISE_UPDATE_STATEMENT") && sqlis(callbackInsertStmt, "CALLBACK_INSERT_STATEMENT") && sqlis(callbackDeleteStmt, "CALLBACK_DELETE_STATEMENT") && sqlis(scheduleInsertStmt, "SCHEDULE_INSERT_STATEMENT") && sqlis(scheduleUpdateStmt, "SCHEDULE_UPDATE_STATEMENT") && sqlis(scheduleDeleteStmt, "SCHEDULE_DELETE_STATEMENT") && sqlis(lockAcquireStmt, "LOCK_ACQUIRE_STATEMENT") && sqlis(lockReleaseStmt, "LOCK_RELEASE_STATEMENT") && sqlis(lockHeartbeatStmt, "LOCK_HEARTBEAT_STATEMENT") && sqlis(lockTimeoutStmt, "LOCK_TIMEOUT_STATEMENT") && sqlis(taskInsertStmt, "TASK_INSERT_STATEMENT") && sqlis(tasksInsertStmt, "TASK_INSERT_ALL_STATEMENT") && sqlis(tasksCompleteStmt, "TASK_COMPLETE_BY_ROOT_ID_STATEMENT") && sqlis(taskUpdateStmt, "TASK_UPDATE_STATEMENT") && sqlis(taskHeartbeatStmt, "TASK_HEARTBEAT_STATEMENT")
+// every command either yields its result or fails the whole batch at once: a result slot is never left
+// empty while execution goes on (an error that is swallowed would commit a partial batch)
+//@ site loop 2 backedge assert results[i][j] != nil
 //@ ensures err != nil ==> result0 == nil
 //@ loop 2 invariant len(results[rangeindex1 + 1]) == len(transactions[rangeindex1 + 1].Commands)
 //@ ensures err == nil ==> len(result0) == len(transactions)
